@@ -169,6 +169,12 @@ pub fn groups() -> Vec<(&'static str, Vec<Spec>)> {
         // ... and scoped to the part of the line where their two decks differ (5c / 2s)
         ("near-flops-tail", vec![eval_spec(["Ah", "Kd", "5c"], &[r4], (37, 38, 37, 41), 1), eval_spec(["Ah", "Kd", "2s"], &[r4], (37, 38, 37, 41), 1), eval_spec(["Ah", "Kd", "2s"], &[r4], (44, 45, 44, 48), 1)]),
         ("near-flops-suit", vec![eval_spec(["As", "Ks", "Qs"], &[r6], (0, 1, 0, 5), 1), eval_spec(["As", "Ks", "Js"], &[r6], (0, 1, 0, 5), 1), eval_spec(["As", "Ks", "Jh"], &[r6], (0, 1, 0, 5), 1)]),
+        // parsers / formatters on texts that nearly collide: same token heads with other weights, same sizes with other ranks
+        ("near-texts", vec![Spec::Parser { text: "AKs:0.5,QQ".into() }, Spec::Parser { text: "AKs:0.25,QQ".into() }, Spec::Parser { text: "AQs:0.5,JJ".into() }]),
+        // the same rank pair spelled high-first and kicker-first, suited and offsuit: whatever is expanded first
+        // in the process must not decide what the others expand to
+        ("spellings-1", vec![Spec::Parser { text: "AKo".into() }, Spec::Parser { text: "KAs:0.5".into() }]),
+        ("spellings-2", vec![Spec::Parser { text: "Q9s".into() }, Spec::Parser { text: "9Qo:0.25".into() }, Spec::Parser { text: "9Qs".into() }]),
         // three evaluators, 6 operations each
         ("three-evaluators", vec![eval_spec(f1, &[r1], (0, 1, 0, 4), 1), eval_spec(f1, &[r1], (0, 1, 0, 4), 1), eval_spec(f2, &[r3], (47, 48, 48, 49), 3)]),
         // four evaluators, 3-4 operations each
